@@ -188,11 +188,19 @@ func c7Clone(c *Ctx) {
 	cln := c.Method(CorePath, "jsonEncoder", "Clone")
 	je := c.Named(CorePath, "jsonEncoder")
 	if c.Anchor("R7.3", "zapcore.jsonEncoder.clone/Clone", cl != nil && cln != nil && je != nil) {
+		// by path exploration (helpers inline): the object clone returns comes out of the encoder pool, and what its
+		// fields hold when it is returned
 		got := map[string]string{}
-		for _, st := range FieldStoresOf(cl, je) {
-			got[st.Field] = Desc(st.Instr.Val)
+		ok := true
+		fromPool := func(obj ssa.Value) bool {
+			call, isCall := obj.(*ssa.Call)
+			return isCall && CalleeFunc(call) != nil && CalleeFunc(call).Name() == "Get"
 		}
-		ok := isFreshBufferDesc(got["buf"]) && got["EncoderConfig"] == "enc.EncoderConfig" && got["spaced"] == "enc.spaced" && got["openNamespaces"] == "enc.openNamespaces"
+		other, trunc, nObj := DerivedObjectsFrom(cl, je, fromPool, func(o derivedObj) {
+			got = o.Fields
+			ok = ok && isFreshBufferDesc(got["buf"]) && got["EncoderConfig"] == "enc.EncoderConfig" && got["spaced"] == "enc.spaced" && got["openNamespaces"] == "enc.openNamespaces"
+		})
+		ok = ok && !trunc && nObj > 0 && len(other) == 0
 		c.Check(ok, "R7.3", cl.String(), "clone-fields", cl.Pos(), "the clone shares only the immutable config and copies spaced/openNamespaces; its buffer is fresh from the pool (%v)", got)
 		// Clone copies bytes: on every path (helpers inline) the parent's bytes are written into the clone's buffer,
 		// unless a branch established that there are none
@@ -340,31 +348,31 @@ func c7Wrappers(c *Ctx) {
 				w.coreField = FN(st.Field(i))
 			}
 		}
-		got := BuiltFields(fn, named)
+		// by path exploration (helpers and shared constructors inline, whole copies of the receiver understood): what
+		// every field of the returned wrapper holds
 		var missing, wrong []string
-		for i := 0; i < st.NumFields(); i++ {
-			f := FN(st.Field(i))
-			bf, ok := got[f]
-			if !ok {
-				missing = append(missing, f)
-				continue
-			}
-			if f == w.coreField {
-				var call *ssa.Call
-				if bf.Val != nil {
-					call, _ = Strip(bf.Val).(*ssa.Call)
+		other, trunc, nObj := DerivedObjects(fn, named, func(o derivedObj) {
+			for i := 0; i < st.NumFields(); i++ {
+				f := FN(st.Field(i))
+				d, ok := o.Fields[f]
+				if !ok {
+					missing = append(missing, f)
+					continue
 				}
-				okc := call != nil && IsCallTo(call, "(go.uber.org/zap/zapcore.Core).With") && Desc(Args(call)[0]) == PN(recv)+"."+f && Args(call)[1] == ssa.Value(fields)
-				if !okc {
-					wrong = append(wrong, f+"="+bf.Desc)
+				if f == w.coreField {
+					call, _ := o.Vals[f].(*ssa.Call)
+					okc := call != nil && IsCallTo(call, "(go.uber.org/zap/zapcore.Core).With") && o.St.Desc(Args(call)[0]) == PN(recv)+"."+f && concResolve(o.St, Args(call)[1]) == ssa.Value(fields)
+					if !okc {
+						wrong = append(wrong, f+"="+d)
+					}
+					continue
 				}
-				continue
+				if d != PN(recv)+"."+f {
+					wrong = append(wrong, f+"="+d)
+				}
 			}
-			if bf.Desc != PN(recv)+"."+f {
-				wrong = append(wrong, f+"="+bf.Desc)
-			}
-		}
-		c.Check(len(missing) == 0 && len(wrong) == 0, "R7.4", fn.String(), "rewrap-complete", fn.Pos(), "With builds a new %s with %s = wrapped.With(fields) and every other field copied from the receiver (left at zero: %v; not a plain copy: %v) — a forgotten field silently resets e.g. the sampler's shared counters or hook", w.name, w.coreField, missing, wrong)
+		})
+		c.Check(!trunc && nObj > 0 && len(other) == 0 && len(missing) == 0 && len(wrong) == 0, "R7.4", fn.String(), "rewrap-complete", fn.Pos(), "on every path With returns a new %s with %s = wrapped.With(fields) and every other field copied from the receiver (left at zero: %v; not a plain copy: %v; returned instead: %v) — a forgotten field silently resets e.g. the sampler's shared counters or hook", w.name, w.coreField, missing, wrong, other)
 		okRet := false
 		for _, r := range Returns(fn) {
 			rv := RetVals(r)[0]
@@ -384,12 +392,14 @@ func c7Wrappers(c *Ctx) {
 	co := c.Named("go.uber.org/zap/zaptest/observer", "contextObserver")
 	if c.Anchor("R7.4", "observer.contextObserver.With", cw != nil && co != nil) {
 		got := map[string]string{}
-		for _, s := range FieldStoresOf(cw, co) {
-			got[s.Field] = Desc(s.Instr.Val)
-		}
-		ctxOK := strings.HasPrefix(got["context"], "append(co.context[:len(co.context):len(co.context)], fields") ||
-			strings.HasPrefix(got["context"], "append(append(make([]zapcore.Field), co.context") && strings.Contains(got["context"], "), fields")
-		ok := got["LevelEnabler"] == "co.LevelEnabler" && got["logs"] == "co.logs" && ctxOK
+		ok := true
+		other, trunc, nObj := DerivedObjects(cw, co, func(o derivedObj) {
+			got = o.Fields
+			ctxOK := strings.HasPrefix(got["context"], "append(co.context[:len(co.context):len(co.context)], fields") ||
+				strings.HasPrefix(got["context"], "append(append(make([]zapcore.Field), co.context") && strings.Contains(got["context"], "), fields")
+			ok = ok && got["LevelEnabler"] == "co.LevelEnabler" && got["logs"] == "co.logs" && ctxOK
+		})
+		ok = ok && !trunc && nObj > 0 && len(other) == 0
 		c.Check(ok, "R7.4", cw.String(), "rewrap-complete", cw.Pos(), "the derived observer shares enabler and log store and owns context = capped-append(parent context, fields) (%v)", got)
 	}
 }
